@@ -20,11 +20,16 @@ class C12(Prop):
     def wants(self, name):
         return "C11-" not in name and "C09-" not in name
 
-    def depth_search(self, progs, seed=0):
+    def depth_search(self, progs, seed=0, budget_s=150):
+        import time
+
         n = 0
+        t0 = time.time()
         for p, inputs in progs:
+            if time.time() - t0 > budget_s:
+                break
             n += 1
-            r = rc.run_program(p, inputs)
+            r = rc.run_program(p, inputs, seconds=2)
             if r["error"] is None and r["depths"] != (1, 1, 1, 0):
                 self.last_n = n
                 return dict(program=p, inputs=list(inputs), depths_after=list(r["depths"]), expected=[1, 1, 1, 0])
@@ -72,10 +77,10 @@ class C12(Prop):
             progs += [(f"1 2 3 {k}", (5, 6)), (f"`ab` 2 {k}", (5,)), (f"3ɾ {k}", ()), (f"3({k})", (1, 2))]
         if "while-continue" in name:
             progs.insert(0, ("0£ 1{¥›£ ¥3<[x] X}", ()))
-        w = self.depth_search(progs)
+        w = self.depth_search(progs, budget_s=40)
         if w:
             return w
-        return self.depth_search(self.programs(random.Random(1), 300))
+        return self.depth_search(self.programs(random.Random(1), 300), budget_s=50)
 
     def stale_search(self, W, key, seed):
         return self.depth_search(self.programs(random.Random(seed), 600))
